@@ -102,7 +102,7 @@ def cases(tier, seed=0):
                        'grad': kind == 'real' and not g['recursive'],
                        # weight of the viterbi derivation (finite weights: the maximum is attained; recursion excluded, see F14 of C04)
                        'viterbi_weight': kind == 'viterbi' and not g['recursive'] and has_derivation_everywhere(g['spec']) and not grammars.features(g['spec'])['duplicate_external']
-                       and sum(math.prod(s) for s in grammars.weight_shapes(g['spec']).values()) <= (8 if tier == 'quick' else 12)})
+                       and sum(math.prod(s) for s in grammars.weight_shapes(g['spec']).values()) <= 8})
     # static sharding (cases[shard::n]): spread the expensive cases (arg-max forking, many presentations) over the shards
     cost = lambda c: (c['semiring'] == 'viterbi') * 4 + (c['method'] == 'fixed-point' and c['recursive']) * 2 + len(c['spec']['rules'])
     cs.sort(key=cost, reverse=True)
